@@ -34,7 +34,27 @@ def parseProp (t : String) : Option (String × Option String) :=
   | [k, v] => some (unhexStr k, some (unhexStr v))
   | _ => none
 
+def parseMicro (t : String) : Option Micro.Ev :=
+  match t.splitOn ":" with
+  | ["s", k, id] => do some (.start (← k.toNat?) (← id.toNat?))
+  | ["a", id] => id.toNat?.map .adv
+  | ["c", k] => k.toNat?.map .cancel
+  | ["o", k] => k.toNat?.map .timeout
+  | ["t"] => some .tick
+  | _ => none
+
+def showMicro : Micro.Outcome → String
+  | .found => "found"
+  | .notFound => "notfound"
+  | .cancelled => "cancelled"
+
 def handle : List String → Option String
+  | "wt.micro" :: toks =>
+    (toks.mapM parseMicro).map fun evs =>
+      let s := Micro.run {} (evs ++ [.tick])
+      let all := s.done.map (fun x => (x.1, showMicro x.2)) ++ s.entries.map (fun e => (e.k, "pending"))
+      let d := all.foldl (fun acc x => insertSorted x acc) []
+      (if d.isEmpty then "-" else " ".intercalate (d.map (fun x => s!"{x.1}={x.2}"))) ++ s!" raised={if s.raised then 1 else 0}"
   | "wt.run" :: toks =>
     (toks.mapM parseEv).map fun evs =>
       let s := run {} evs
